@@ -121,6 +121,7 @@ var c12ProbeOrder = []string{"other-root", "extra-root", "fewer-roots", "no-root
 // c12Run executes ops (+ final Finalize) with interruptions and returns the final bytes.
 // probeSeen de-duplicates mismatch probes per distinct file image.
 func c12Run(x *kit.Ctx, cs C12Case, ops []string, probeSeen map[string]bool, onlyProbe string) {
+	ops = append([]string{}, ops...) // the caller's slice is reused by the enumeration
 	roots := []cid.Cid{kit.B("a").Cid, kit.B("b").Cid}
 	permuted := []cid.Cid{kit.B("b").Cid, kit.B("a").Cid}
 	path := filepath.Join(x.Dir, "c12.car")
